@@ -43,6 +43,10 @@ class Ty:
             return "string"
         if k == "bslice":
             return "[]int64"
+        if k == "bpslice":
+            return "[]*int64"
+        if k == "eslice":
+            return "[]verifEmptyRec"
         if k == "fixed":
             return "[%d]byte" % self.n
         if k == "ptr":
@@ -242,6 +246,10 @@ def natural(t, omit=False):
         s = Sd("bytes")
     elif k == "bslice":
         s = Sd("array", items=Sd("long"))
+    elif k == "bpslice":
+        s = Sd("array", items=U(Sd("long")))
+    elif k == "eslice":
+        s = Sd("array", items=Sd("record", name="verifEmptyRec", fields=[]))
     elif k == "slice":
         s = Sd("array", items=natural(t.elem))
     elif k == "map":
@@ -332,6 +340,10 @@ class Gen:
             body.append("*p = verifBytes(tag, verifLongLen(tag))")
         elif k == "bslice":
             body.append("n := verifLongLen(tag)\n\t*p = make([]int64, n)\n\tfor i := 0; i < n; i++ {\n\t\t(*p)[i] = int64(verifNondetU8(tag) & 0x3f)\n\t}")
+        elif k == "bpslice":
+            body.append("n := []int{33, 40, 65}[verifChoice(tag+\".len\", 3)]\n\t*p = make([]*int64, n)\n\tfor i := 0; i < n; i++ {\n\t\tv := int64(verifNondetU8(tag) & 0x3f)\n\t\t(*p)[i] = &v\n\t}")
+        elif k == "eslice":
+            body.append("*p = make([]verifEmptyRec, []int{0, 1, 9, 70}[verifChoice(tag+\".len\", 4)])")
         elif k == "fixed":
             body.append("copy(p[:], verifBytes(tag, %d))" % t.n)
         elif k == "ptr":
@@ -381,7 +393,7 @@ class Gen:
             return "!%s" % e
         if k in INTS or k in FLOATS:
             return "%s == 0" % e
-        if k in ("string", "bytes", "slice", "map", "lstring", "lbytes", "bslice"):
+        if k in ("string", "bytes", "slice", "map", "lstring", "lbytes", "bslice", "bpslice", "eslice"):
             return "len(%s) == 0" % e
         return None
 
@@ -437,6 +449,10 @@ class Gen:
             b.append("return refStr([]byte(*p))")
         elif sd.kind == "bytes" and k != "customL":
             b.append("return refStr(*p)")
+        elif sd.kind == "array" and k == "bpslice":
+            b.append("d := refDatum{K: 'a'}\n\tfor i := range *p {\n\t\td.Items = append(d.Items, refUnion(1, refLong(*(*p)[i])))\n\t}\n\treturn d")
+        elif sd.kind == "array" and k == "eslice":
+            b.append("d := refDatum{K: 'a'}\n\tfor range *p {\n\t\td.Items = append(d.Items, refDatum{K: 'r'})\n\t}\n\treturn d")
         elif sd.kind == "array" and k == "bslice":
             b.append("d := refDatum{K: 'a'}\n\tfor i := range *p {\n\t\td.Items = append(d.Items, refLong((*p)[i]))\n\t}\n\treturn d")
         elif sd.kind == "fixed" and k == "customS":
@@ -485,7 +501,8 @@ class Gen:
         wk, tk = wt.kind, tt.kind
         b = []
         wnull = wk == "ptr" or wk in NULLS
-        if wk == "ptr" and wt.elem.kind in ("slice", "map") or tk == "ptr" and tt.elem.kind in ("slice", "map"):
+        COLL = ("slice", "map", "bslice", "bpslice", "eslice")
+        if wk == "ptr" and wt.elem.kind in COLL or tk == "ptr" and tt.elem.kind in COLL:
             # pointer to collection: nil pointer is identified with the empty collection
             we = wt.elem if wk == "ptr" else wt
             te = tt.elem if tk == "ptr" else tt
@@ -533,6 +550,10 @@ class Gen:
             b.append("return verifStrEq(*in, *out)")
         elif wk in ("bytes", "lbytes") and tk == wk:
             b.append("return refBytesEq(*in, *out)")
+        elif wk == "bpslice" and tk == "bpslice":
+            b.append("if len(*in) != len(*out) {\n\t\treturn false\n\t}\n\tacc := true\n\tfor i := range *in {\n\t\tif (*out)[i] == nil {\n\t\t\treturn false\n\t\t}\n\t\tacc = verifAnd(acc, *(*in)[i] == *(*out)[i])\n\t}\n\treturn acc")
+        elif wk == "eslice" and tk == "eslice":
+            b.append("return len(*in) == len(*out)")
         elif wk == "bslice" and tk == "bslice":
             b.append("if len(*in) != len(*out) {\n\t\treturn false\n\t}\n\tacc := true\n\tfor i := range *in {\n\t\tacc = verifAnd(acc, (*in)[i] == (*out)[i])\n\t}\n\treturn acc")
         elif wk == "fixed" and tk == "fixed":
@@ -591,7 +612,7 @@ class Gen:
             if k in FLOATS:
                 return "*%s == 0" % e
             return "*%s == %s" % (e, z)
-        if k in ("bytes", "slice", "map", "lbytes", "bslice", "lstring"):
+        if k in ("bytes", "slice", "map", "lbytes", "bslice", "lstring", "bpslice", "eslice"):
             return "len(*%s) == 0" % e
         if k == "ptr":
             return "*%s == nil" % e
@@ -643,6 +664,7 @@ class Gen:
 	if err != nil {
 		return
 	}
+	verifUnwind(600)
 	var in %(n)s
 	%(fill)s(&in, "v")
 	verifSetGuards_%(n)s(&in)
@@ -794,6 +816,7 @@ class Gen:
 	if err != nil {
 		return
 	}
+	verifUnwind(600)
 	var in %(w)s
 	%(fill)s(&in, "v")
 	d := %(datum)s(&in)
@@ -883,6 +906,8 @@ func verifMaxLenInner() int {
 
 func verifMaxStr() int { return 2 }
 
+type verifEmptyRec struct{}
+
 // lengths around the points where a length / count varint grows a byte
 func verifLongLen(tag string) int {
 	l := []int{63, 64, 65, 130}
@@ -967,9 +992,12 @@ def catalogue_avro(g):
     add("scale", "verifX_PtrBigSlice", [Field("A", P(B("bslice"))), Z()])
     lvl3 = g.struct("verifX_L3", [Field("C", P(S(B("int64")))), Field("N", B("string"), 'json:"n,omitempty"')])
     lvl2 = g.struct("verifX_L2", [Field("B", M(lvl3)), Field("K", B("int64"))])
-    add("scale", "verifX_Deep", [Field("A", S(lvl2)), Z()])
+    add("x_scale", "verifX_Deep", [Field("A", S(lvl2)), Z()])  # thorough tier only
     add("scale", "verifX_ManyFields", [Field("F%02d" % i, B(k)) for i, k in enumerate(
-        ["int64", "string", "bool", "int32", "float64", "bytes", "int16", "string", "int64", "float32", "bool", "int"])] + [Field("P", P(B("int64"))), Field("O", B("string"), 'json:"o,omitempty"')])
+        ["bool", "float64", "float64", "bool", "float64", "int16", "float64", "bool", "float64", "float64", "float64", "float64"])] + [Field("P", P(B("int64"))), Field("O", B("string"), 'json:"o,omitempty"')])
+    add("scale", "verifX_TwoLongStrings", [Field("A", B("lstring")), Field("B", B("lstring")), Z()])
+    add("scale", "verifX_BigSlicePtr", [Field("A", B("bpslice")), Z()])
+    add("scale", "verifX_EmptyItems", [Field("A", B("eslice")), Field("N", B("string")), Z()])
     add("deep", "verifD_PtrBytes", [Field("A", P(B("bytes"))), Z()])
     add("deep", "verifD_SliceBytes", [Field("A", S(B("bytes"))), Z()])
     return types, cat
@@ -1002,6 +1030,9 @@ def reader_pairs_avro(g, cat):
               "verifM_Int64", "verifM_String", "verifN_Struct", "verifN_PtrStruct", "verifN_SliceStruct", "verifN_MapStruct",
               "verifD_SlicePtr", "verifD_MapPtr", "verifD_SliceSlice", "verifD_MapSlice", "verifD_SliceBytes", "verifD_OmitSlice", "verifD_OmitMap", "verifTags1"]:
         pairs.append((cat[n], cat[n], "same"))
+    for n in ("verifX_LongString", "verifX_LongBytes", "verifX_LongStringOmit", "verifX_SliceLongString", "verifX_MapLongBytes", "verifX_BigSlice",
+              "verifX_PtrBigSlice", "verifX_ManyFields", "verifX_TwoLongStrings", "verifX_BigSlicePtr", "verifX_EmptyItems"):
+        pairs.append((cat[n], cat[n], "scale"))
     # integer width / pointer indirection / float width variations
     pairs.append((cat["verifL_Int64"], cat["verifL_Int"], "width"))
     pairs.append((cat["verifL_Int64"], cat["verifL_Int32"], "width"))
@@ -1345,7 +1376,7 @@ def main():
     ta, cata = catalogue_avro(ga)
     for group, t in ta:
         ga.harness_rt(t, group)
-    for n in ("verifL_Int64", "verifL_Int32", "verifL_Int", "verifO_Int64", "verifP_Int64", "verifS_Int64", "verifM_Int64"):
+    for n in ("verifL_Int64", "verifL_Int32", "verifL_Int", "verifO_Int64", "verifP_Int64"):
         ga.harness_rt(cata[n], "wide", wide=True)
     for wt, tt, group in reader_pairs_avro(ga, cata):
         ga.harness_read(wt, tt, group)
